@@ -160,6 +160,8 @@ func init() {
 
 func evLabel(s, i int) string { return evLabels[s][i] }
 
+func xLabel(s int) string { return fmt.Sprintf("s%dx", s) }
+
 func NewWorld(sess []SessDef, logins []LoginDef) *World {
 	w := &World{Rec: &Recorder{}, Sess: sess, Logins: logins}
 	w.EW = auditevent.NewDefaultAuditEventWriter(w.Rec)
@@ -226,6 +228,7 @@ type Op struct {
 	J    int    `json:"j,omitempty"` // event index within the session script
 	Cut  int    `json:"cut,omitempty"`
 	Perm []int  `json:"perm,omitempty"` // Iterate-order choices taken inside the op
+	Typ  int    `json:"typ,omitempty"`  // "X": an extra event of this record type for session I (C04 fan-out)
 }
 
 func (o Op) String() string {
@@ -234,6 +237,8 @@ func (o Op) String() string {
 		return fmt.Sprintf("L%d", o.I)
 	case "A":
 		return fmt.Sprintf("A(s%d,e%d)", o.I, o.J)
+	case "X":
+		return fmt.Sprintf("X(s%d,%s)", o.I, auparse.AuditMessageType(o.Typ))
 	default:
 		return fmt.Sprintf("%s(cut=%d)", o.K, o.Cut)
 	}
@@ -361,6 +366,12 @@ func (w *World) Apply(op Op) error {
 		return w.T.RemoteLogin(w.mkLogin(op.I))
 	case "A":
 		return w.T.AuditdEvent(w.events[op.I][op.J])
+	case "X":
+		sd := w.Sess[op.I]
+		e := &aucoalesce.Event{Timestamp: time.Unix(1700009999, 0).UTC(), Type: auparse.AuditMessageType(op.Typ), Session: sd.ID,
+			Result: "success", Summary: aucoalesce.Summary{Action: xLabel(op.I)}, Process: aucoalesce.Process{PID: sd.PID}}
+		w.d.Labels[unsafe.Pointer(e)] = xLabel(op.I)
+		return w.T.AuditdEvent(e)
 	case "CU":
 		w.T.DeleteUsersWithoutLoginsBefore(w.ticks[op.Cut])
 	case "CR":
